@@ -332,6 +332,7 @@ def run(ctx: Ctx):
     # apply: interval masks symmetric
     # ---- S6 every drawn (centre, shift) gives the warp three well-separated knots --------------------------------------
     _warp_knots(ctx, rel)
+    _resample_dtype(ctx, rel)
     plumbing(ctx, "S1")
     return dict(
         explanation=(
@@ -449,10 +450,54 @@ def _warp_knots(ctx: Ctx, rel: str):
            f"longer monotone / within half a frame of the ends", rel, sp[0].lineno, sample=dict(points=n, centre=MM.show(tc)[:100], shift=MM.show(ts)[:80]))
 
 
+def _resample_dtype(ctx: Ctx, rel: str):
+    """S7: grid_sample requires the sampling grid to have the dtype of the input. The warp grids are built in float32
+    (`warp_1d_grid` casts with .float(), the identity grids use dtype=torch.float), so unless the grid handed to grid_sample
+    is cast to the features' dtype, every warp on float64 / float16 features raises."""
+    from sa.defuse import ReachingDefs
+    col, pkg = ctx.col, ctx.pkg
+    app = pkg.func("_img::spec_augment_apply_parameters")
+    rd = ReachingDefs(app.node)
+    gs = [c for c in own_calls(app.node) if call_name(c).endswith("grid_sample")]
+    if len(gs) != 1 or len(gs[0].args) < 2:
+        raise AnalysisError("C08: spec_augment_apply_parameters does not call grid_sample(input, grid, ...) once")
+    inp, grid = gs[0].args[0], gs[0].args[1]
+    feats = app.params[0].name
+    # walk back from the grid argument through shape-only methods and single definitions; a cast to the features' dtype
+    # must be met before the grid's constructor (torch.stack)
+    der = rd.derives(grid)
+    fnames = rd.derives(inp).params() | {feats}
+    casts = []
+    cur, hops = grid, 0
+    while cur is not None and hops < 12:
+        hops += 1
+        if isinstance(cur, ast.Call) and isinstance(cur.func, ast.Attribute):
+            if cur.func.attr in ("to", "type_as", "type") and any(
+                    isinstance(x, ast.Name) and (x.id in fnames or any(p in fnames for p in rd.derives(x).params()))
+                    for a in list(cur.args) + [k.value for k in cur.keywords] for x in ast.walk(a)):
+                casts.append(u(cur)[:80])
+                break
+            if cur.func.attr in ("unsqueeze", "expand", "contiguous", "view", "reshape", "to", "clone"):
+                cur = cur.func.value
+                continue
+            break
+        if isinstance(cur, ast.Name):
+            ds = list(rd.defs_of(cur))
+            cur = ds[0].value if len(ds) == 1 and ds[0].kind == "assign" else None
+            continue
+        break
+    fixed = [u(k.value) for c in der.calls() for k in c.keywords if k.arg == "dtype" and u(k.value) in ("torch.float", "torch.float32")]
+    col.ob("G13", "S7", f"{rel}::spec_augment_apply_parameters::sampling-grid-has-the-features'-dtype", bool(casts),
+           f"the grid handed to grid_sample is built with fixed dtypes {sorted(set(fixed)) or ['float32 (warp_1d_grid)']} and never "
+           f"cast to the dtype of `{feats}`: grid_sample raises 'expected scalar type Double but found Float' for every warp on "
+           f"float64 (or float16) features, including the default configuration", rel, gs[0].lineno, sample=dict(casts=casts, fixed=fixed))
+
+
 def _mutants():
     from selftest.mutate import Mutant as M
     I = "_img.py"
     return [
+        M("grid-left-in-float32", "_img.py", "grid = grid.to(new_feats.dtype)\n", "", "sampling-grid-has-the-features'-dtype"),
         # a scratch copy in which the known finding F25 is repaired (last pinned knot one frame further out) must be silent
         M("repaired:last-pinned-knot-beyond-the-clamp", "_img.py", "uppers = (2 * lengths - 1) / T - 1.0 + eps", "uppers = (2 * lengths + 1) / T - 1.0 + eps", "", twin=True),
         M("apply-slots-swapped", I, "w_0, w, v_0, v, t_0, t, f_0, f = params", "w_0, w, v_0, v, t, t_0, f_0, f = params", "G"),
